@@ -757,5 +757,53 @@ class LifespanRandom(Suite):
         return run_lifespan_case(case)
 
 
-SUITES = [ExhaustiveWsgi(), HookSuffixes(), RandomStacks(), LifespanEnum(), LifespanRandom()]
+class TallStacks(Suite):
+    """Counts beyond the moderate range: stacks of 8-300 middleware components (around 32, 64, 128, 256; every component
+    with all three methods, or cycling through the seven method subsets), on falcon.App and falcon.asgi.App, both
+    independent_middleware settings, routed and unrouted, without a fault and with a fault raised by one of the LAST
+    process_request methods, by the responder, or by a process_response in the middle of the unwinding.  Same reference
+    interpreter: every component's methods run exactly once, in stack order / reverse stack order."""
+
+    name = 'tall_stacks'
+    exhaustive = True
+    budget = {'quick': 1, 'thorough': 1}
+
+    def cases(self, tier):
+        sizes = (8, 31, 32, 33, 63, 64, 65, 66, 100, 127, 128, 129, 257, 300)
+        for n in (sizes if tier != 'quick' else (8, 33, 64, 65, 66, 129, 300)):
+            for stack in ('wsgi', 'asgi'):
+                for independent in (True, False):
+                    for pattern in ('full', 'cycle'):
+                        for fault in (None, 'late_request', 'responder', 'mid_response', 'unrouted'):
+                            yield {'stack': stack, 'independent': independent, 'n': n, 'pattern': pattern, 'fault': fault}
+
+    def run(self, case):
+        n = case['n']
+        if case['pattern'] == 'full':
+            mw = [dict(zip(KINDS, ('plain', 'plain', 'plain'))) for _ in range(n)]
+        else:
+            mw = [dict(zip(KINDS, SHAPES[i % len(SHAPES)])) for i in range(n)]
+        actions, handler = {}, None
+        fault = case['fault']
+        if fault == 'late_request':
+            site = [s for s in component_sites(mw) if s.startswith('req')][-2]
+            actions = {site: 'http_error'}
+        elif fault == 'responder':
+            actions, handler = {'responder': 'app_error'}, 'return'
+        elif fault == 'mid_response':
+            sites = [s for s in component_sites(mw) if s.startswith('resp')]
+            actions = {sites[len(sites) // 2]: 'http_status'}
+        full = {'stack': case['stack'], 'independent': case['independent'], 'route': 'none' if fault == 'unrouted' else 'resource', 'mw': mw,
+                'class_hooks': [], 'method_hooks': [], 'app_handler': handler, 'actions': actions}
+        try:
+            expected, reached, skipped = run_request_case(full)
+        except Violation as v:
+            d = v.detail
+            raise Violation(v.kind, '%s ... %s\n  compact case=%r' % (d[:600], d[-300:], case))
+        return Info(True, [case['stack'], 'independent' if case['independent'] else 'dependent', 'n:%s' % ('<=64' if n <= 64 else '<=128' if n <= 128 else '>128'),
+                           'fault:%s' % fault])
+
+
+
+SUITES = [ExhaustiveWsgi(), HookSuffixes(), RandomStacks(), TallStacks(), LifespanEnum(), LifespanRandom()]
 KNOWN = {}
